@@ -235,6 +235,7 @@ EDGE = \
     , [['-f', '7.1'], ['-w', '6,0,0,0,0,0,10,0.01'], ['-w', '3,0,0,0,0,0,5,0.01']], [['-f', '7.1'], ['-a', '4,2,0,360,0.01']], [['-f', '7.1'], ['-a', '4,2,0,0,0.01']]
     , [['-f', '7.1'], ['-a', '4,2,0,720,0.01']], [['-f', '7.1'], ['-a', '4,2,0,180,0.01'], ['--medium', '0,0,0']], [['-f', '7.1'], ['-a', '4,2,0,181,0.01'], ['--medium', '0,0,0']]
     , [['-f', '7.1'], ['--helix', '8,0,1,0.01,1,1']], [['-f', '7.1'], ['--helix', '8,4,0,0.01,1,1']], [['-f', '7.1'], ['--helix', '8,4,1,0.01,0,0']]
+    , [['-f', '7.1'], ['--helix', '0,1e-300,-1e300,0.01,1,1']], [['-f', '7.1'], ['--helix', '1,1e-300,-1e300,0.01,1,1']], [['-f', '7.1'], ['--helix', '1,0.5,4,0.01,1,1']]
     , [['-f', '7.1'], ['--helix', '8,4,1,0.01,1,1'], ['--medium', '0,0,0']], [['-f', '7.1'], ['--helix', '8,-4,1,0.01,1,1'], ['--medium', '0,0,0']]
     , E1 + [['--geo-scale', '1e-9']], E1 + [['--geo-scale', '1e9']], E1 + [['--geo-translate', '1,0,0,-10'], ['--medium', '0,0,0']], E1 + [['--geo-translate', '1,0,0,-10.001'], ['--medium', '0,0,0']]
     , E1 + [['--geo-rotate', '1,180,0,0'], ['--medium', '0,0,0']], E1 + [['--geo-rotate', '1,90,0,0'], ['--medium', '0,0,0']]
